@@ -93,20 +93,20 @@ theorem yly_setpos_back (r : Rule) (p x : Inst) (hy : 1901 ≤ p.y) (hf : r.freq
       omega
     · exact absOf_sh28 y' N (by omega) (by omega)
 
-theorem yE_abs_sorted (r : Rule) (p : Inst) (nti : Nat) (hr : WfRule r) (hp : WfInst p) (hs : SeedOk r p)
+theorem yE_abs_sorted (r : Rule) (p : Inst) (nti : Nat) (hr : WfRule r) (hp : WfInst p)
     (hsup : YlySup r) (hy : 1901 ≤ p.y) (y : Nat) (hq : yReach r p y) (hy2 : y ≤ 2099) :
     (yE r p nti y).Pairwise (fun a b => absOf a < absOf b) := by
   have hsorted := (yly_loopHyp r p nti hr hp hsup hy).sorted y hq hy2
   refine List.Pairwise.imp_of_mem ?_ hsorted
   intro a b ha hb hab
-  have ia := yE_inst r p nti hr hp hs hsup hy y hq hy2 a ha
-  have ib := yE_inst r p nti hr hp hs hsup hy y hq hy2 b hb
+  have ia := yE_inst r p nti hr hp hsup hy y hq hy2 a ha
+  have ib := yE_inst r p nti hr hp hsup hy y hq hy2 b hb
   have fa := yE_year r p nti hr hp hsup hy y hq hy2 a ha
   have fb := yE_year r p nti hr hp hsup hy y hq hy2 b hb
   exact abs_lt_of_ltP hp ia.1 ib.1 (by rw [fa]; exact hy2) (by rw [fb]; exact hy2) hab
 
 /-- the year's list holds exactly the instances of the year's period -/
-theorem yE_hchar (r : Rule) (p : Inst) (nti : Nat) (hr : WfRule r) (hp : WfInst p) (hs : SeedOk r p)
+theorem yE_hchar (r : Rule) (p : Inst) (nti : Nat) (hr : WfRule r) (hp : WfInst p)
     (hsup : YlySup r) (hy : 1901 ≤ p.y) (hf : r.freq = 1) (y : Nat) (hq : yReach r p y) (hy2 : y ≤ 2099)
     (x : Inst) (hx : x ∈ yE r p nti y) (u : Inst) :
     u ∈ yE r p nti y ↔ Instance r p u ∧ periodOf r.freq u = periodOf r.freq x := by
@@ -115,23 +115,23 @@ theorem yE_hchar (r : Rule) (p : Inst) (nti : Nat) (hr : WfRule r) (hp : WfInst 
   constructor
   · intro hu
     have fu := yE_year r p nti hr hp hsup hy y hq hy2 u hu
-    exact ⟨yE_inst r p nti hr hp hs hsup hy y hq hy2 u hu, by rw [fu, fx]⟩
+    exact ⟨yE_inst r p nti hr hp hsup hy y hq hy2 u hu, by rw [fu, fx]⟩
   · rintro ⟨hi, hpe⟩
     obtain ⟨b1, _, b4, b5⟩ := (ylyInst_iff r p u).1 hi
-    obtain ⟨t1, t2, t3⟩ := enum_of_exp hp hs (kindOk_of_same b1) b5
+    obtain ⟨t1, t2, t3⟩ := enum_of_exp hp (kindOk_of_same b1) b5
     obtain ⟨j, hj⟩ := hq
     have : 0 ≤ j * r.inter := Nat.zero_le _
     exact (mem_yE_iff r p nti hr hp hsup hy y ⟨by omega, hy2⟩ u).2
       ⟨by omega, b1.1, b1.2.1, b1.2.2.1, b1.2.2.2.1, b4, b1.2.2.2.2.1, t1, t2, t3⟩
 
 /-- BYSETPOS for entry `i` of a year's list -/
-theorem yE_setpos (r : Rule) (p : Inst) (nti : Nat) (hr : WfRule r) (hp : WfInst p) (hs : SeedOk r p)
+theorem yE_setpos (r : Rule) (p : Inst) (nti : Nat) (hr : WfRule r) (hp : WfInst p)
     (hsup : YlySup r) (hy : 1901 ≤ p.y) (hf : r.freq = 1) (hpos : r.pos ≠ []) (y : Nat) (hq : yReach r p y)
     (hy2 : y ≤ 2099) (x : Inst) (i : Nat) (hi : (yE r p nti y)[i]? = some x) :
     SetposOk r p x ↔ PosSel r.pos i (yE r p nti y).length := by
   have hx : x ∈ yE r p nti y := List.mem_of_getElem? hi
   have hil : i < (yE r p nti y).length := (List.getElem?_eq_some_iff.1 hi).1
-  rw [setpos_iff r p x hpos (yE r p nti y) (yE_abs_sorted r p nti hr hp hs hsup hy y hq hy2) i hi
-    (yE_hchar r p nti hr hp hs hsup hy hf y hq hy2 x hx), posSel_iff_match r.pos i _ hil]
+  rw [setpos_iff r p x hpos (yE r p nti y) (yE_abs_sorted r p nti hr hp hsup hy y hq hy2) i hi
+    (yE_hchar r p nti hr hp hsup hy hf y hq hy2 x hx), posSel_iff_match r.pos i _ hil]
 
 end Echse.Lemmas.RrYlyRfc
